@@ -69,6 +69,8 @@ pub open spec fn ran<S>(before: Env<S>, after: Env<S>, what: int, r: Result) -> 
     &&& after.stack.inner@ == before.stack.inner@
     &&& after.options == before.options
 }
+/// an elif-then clause (yash-syntax ElifThen, with the reduced List above)
+pub struct ElifThen { pub condition: List, pub body: List }
 /// an and-or list (yash-syntax AndOrList, with the reduced Pipeline above)
 pub struct AndOrList { pub first: Pipeline, pub rest: Vec<(AndOr, Pipeline)> }
 /// model of `slice.iter().peekable()` (std Peekable over a slice iterator; ASSUMED to behave like this index walk)
@@ -104,6 +106,10 @@ pub assume_specification<T>[ core::mem::drop::<T> ](x: T);
 /// the log has only grown
 pub open spec fn extends_runs(new: Seq<Run>, old: Seq<Run>) -> bool {
     old.len() <= new.len() && forall|i: int| 0 <= i < old.len() ==> #[trigger] new[i] == old[i]
+}
+/// a condition that ran in an exempt context directly above `base`, ended normally and did not hold
+pub open spec fn failed_condition(e: Run, base: Seq<Frame>) -> bool {
+    exempt_run(e, base) && e.result is Continue && e.status_after.0 != 0
 }
 pub open spec fn plain_or_negated(e: Run, base: Seq<Frame>, negation: bool) -> bool {
     e.stack == (if negation { base.push(Frame::Condition) } else { base })
